@@ -285,7 +285,7 @@ def compare_stats_threads(run, tmp):
             run.evaluations += 1
         for th in (2, 4):
             for (k0, v0), (k1, v1) in zip(outs[1].items(), outs[th].items()):
-                if v0['n'] != v1['n'] or abs(v0['r2'] - v1['r2']) > 1e-6 or abs(v0['rmse'] - v1['rmse']) > 1e-6 * max(1, v0['rmse']):
+                if v0['n'] != v1['n'] or not (abs(v0['r2'] - v1['r2']) <= 1e-6) or not (abs(v0['rmse'] - v1['rmse']) <= 1e-6 * max(1, v0['rmse'])):
                     run.fail(dict(i=10**6 + th, op='compare', threads=th), f'compare statistics differ between 1 and {th} threads: '
                              f'{v0} vs {v1}', signature=dict(kind='compare-threads'))
         # controlled executor + locksets for compare
@@ -315,7 +315,7 @@ def compare_stats_threads(run, tmp):
                 run.fail(case, 'compare: ' + ctrl.violations[0], signature=dict(kind='unlocked-access'))
             else:
                 for (k0, v0), (k1, v1) in zip(outs[1].items(), r.items()):
-                    if v0['n'] != v1['n'] or abs(v0['rmse'] - v1['rmse']) > 1e-6 * max(1, v0['rmse']):
+                    if v0['n'] != v1['n'] or not (abs(v0['rmse'] - v1['rmse']) <= 1e-6 * max(1, v0['rmse'])):
                         run.fail(case, f'compare statistics depend on the schedule: {v0} vs {v1}', signature=dict(kind='compare-schedule'))
             run.hist['compare schedules'] += 1
         # stats: thread counts
@@ -385,8 +385,8 @@ def free_running_stress(run, tmp):
                 run.evaluations += 1
                 run.hist['free-running stress: compare'] += 1
                 bad = [(k0, v0, v1) for (k0, v0), (k1, v1) in zip(base_cmp.items(), got.items())
-                       if k0 != k1 or v0['n'] != v1['n'] or abs(v0['r2'] - v1['r2']) > 5e-5 or
-                       any(abs(v0[q] - v1[q]) > 1e-6 * max(1.0, abs(v0[q])) for q in ('rmse', 'rrmse'))]
+                       if k0 != k1 or v0['n'] != v1['n'] or not (abs(v0['r2'] - v1['r2']) <= 5e-5) or
+                       any(not (abs(v0[q] - v1[q]) <= 1e-6 * max(1.0, abs(v0[q]))) for q in ('rmse', 'rrmse'))]
                 if bad or len(got) != len(base_cmp):
                     run.fail(case, f'compare statistics with {th} free-running threads differ from the single-threaded run: {bad[:1]}',
                              signature=dict(kind='compare-threads'))
